@@ -661,3 +661,121 @@ func TestT14EOFWithoutMoreInput(t *testing.T) {
 	run("flate", func(r io.Reader) (io.Reader, error) { return flate.NewReader(r), nil }, mkFlate())
 	run("zlib", func(r io.Reader) (io.Reader, error) { rc, err := zlib.NewReader(r); return rc, err }, mkZlib())
 }
+
+// 14b: sweep - every two-chunk split of flate, zlib and gzip streams; after the last chunk the source
+// fails with its own error. All data and io.EOF must come out without that error ever surfacing
+// (C11: "without requiring the source to deliver further bytes ... or to stay error-free afterwards").
+type chunkThenFail struct {
+	chunks [][]byte
+	asked  int
+}
+
+var errSourceGone = errors.New("source gone")
+
+func (c *chunkThenFail) Read(p []byte) (int, error) {
+	for len(c.chunks) > 0 && len(c.chunks[0]) == 0 {
+		c.chunks = c.chunks[1:]
+	}
+	if len(c.chunks) == 0 {
+		c.asked++
+		return 0, errSourceGone
+	}
+	n := copy(p, c.chunks[0])
+	c.chunks[0] = c.chunks[0][n:]
+	return n, nil
+}
+
+func TestT14bEOFSweep(t *testing.T) {
+	payload := randText(3000, 7)
+	var fl, zl, gz bytes.Buffer
+	fw, _ := stdflate.NewWriter(&fl, 6)
+	fw.Write(payload)
+	fw.Close()
+	zw := stdzlib.NewWriter(&zl)
+	zw.Write(payload)
+	zw.Close()
+	gw := gzip.NewWriter(&gz)
+	gw.Write(payload)
+	gw.Close()
+	type opener func(io.Reader) (io.Reader, error)
+	cases := []struct {
+		name   string
+		stream []byte
+		open   opener
+	}{
+		{"flate", fl.Bytes(), func(r io.Reader) (io.Reader, error) { return flate.NewReader(r), nil }},
+		{"zlib", zl.Bytes(), func(r io.Reader) (io.Reader, error) { return zlib.NewReader(r) }},
+		{"gzip1", gz.Bytes(), func(r io.Reader) (io.Reader, error) {
+			g, err := gzip.NewReader(r)
+			if err == nil {
+				g.Multistream(false)
+			}
+			return g, err
+		}},
+	}
+	for _, c := range cases {
+		bad := 0
+		for split := 1; split < len(c.stream); split++ {
+			src := &chunkThenFail{chunks: [][]byte{append([]byte(nil), c.stream[:split]...), append([]byte(nil), c.stream[split:]...)}}
+			r, err := c.open(src)
+			if err != nil {
+				bad++
+				if bad < 4 {
+					t.Errorf("%s split %d: open: %v", c.name, split, err)
+				}
+				continue
+			}
+			got, err := io.ReadAll(r)
+			if err != nil || !bytes.Equal(got, payload) {
+				bad++
+				if bad < 4 {
+					t.Errorf("%s split %d: %d bytes, err %v (source asked beyond the end %d times)", c.name, split, len(got), err, src.asked)
+				}
+			}
+		}
+		if bad > 0 {
+			t.Errorf("%s: %d of %d splits fail", c.name, bad, len(c.stream)-1)
+		}
+	}
+}
+
+// 14c: sweep - prefixes ending at a sync-flush point, delivered in two chunks, then the source fails:
+// everything written before the Flush must come out before the source's error.
+func TestT14cFlushPrefixSweep(t *testing.T) {
+	for _, lvl := range []int{1, 6, -2, 0} {
+		for _, sz := range []int{1, 9, 300, 5000, 70000} {
+			part1 := randText(sz, int64(sz))
+			var b bytes.Buffer
+			w, _ := stdflate.NewWriter(&b, lvl)
+			w.Write(part1)
+			w.Flush()
+			prefix := append([]byte(nil), b.Bytes()...)
+			step := 1
+			if len(prefix) > 400 {
+				step = len(prefix) / 200
+			}
+			bad := 0
+			for split := 1; split < len(prefix); split += step {
+				src := &chunkThenFail{chunks: [][]byte{append([]byte(nil), prefix[:split]...), append([]byte(nil), prefix[split:]...)}}
+				r := flate.NewReader(src)
+				got := make([]byte, 0, sz)
+				buf := make([]byte, 777)
+				var err error
+				for err == nil {
+					var n int
+					n, err = r.Read(buf)
+					got = append(got, buf[:n]...)
+				}
+				if !bytes.Equal(got, part1) || err != errSourceGone {
+					bad++
+					if bad < 3 {
+						t.Errorf("level %d size %d split %d: got %d of %d bytes, err %v", lvl, sz, split, len(got), len(part1), err)
+					}
+				}
+			}
+			if bad > 0 {
+				t.Errorf("level %d size %d: %d splits fail", lvl, sz, bad)
+			}
+		}
+	}
+}
